@@ -90,10 +90,9 @@ def run(c, a):
         "every probe runs on a fresh ClusterConnection (fresh observers); concurrency of handlers is covered by the design "
         "model, the binding holds one stream open across the probe",
     ]
-    for f in load_proposed("C20"):
-        c.findings.append(f)
     # ---- 1. design
-    design = [("so_cur_safe.cfg", "hold"), ("so_cur_wedge.cfg", "violated"), ("so_fix.cfg", "hold"), ("so_fix3.cfg", "hold")]
+    design = [("so_cur_safe.cfg", "hold"), ("so_cur_wedge.cfg", "violated"), ("so_fix.cfg", "hold"), ("so_fix3.cfg", "hold"),
+              ("so_mut_nodefer.cfg", "violated"), ("so_mut_fastpath.cfg", "violated")]
     if thorough:
         design += [("so_cur3_safe.cfg", "hold"), ("so_cur3_wedge.cfg", "violated"), ("so_fix_live.cfg", "hold"),
                    ("so_fix3_live.cfg", "hold"), ("so_fix_w8.cfg", "hold"), ("so_cur_w8_safe.cfg", "hold")]
@@ -191,6 +190,23 @@ def run(c, a):
         else:
             main.append(x)
     events += probe(main, "m")
+    # one stream fails by a panic inside handleStream / several streams at once while the counter slice grows (StreamObs!Serve with
+    # ServeFails, H handlers on one observer): in-process on the real handler, real parallelism
+    dummy = os.path.join(c.scratch, "so-extra-in.ndjson")
+    open(dummy, "w").write("{}\n")
+    res = c.run_shards(wrapper, "^TestVerifStreamObsExtra$", [dummy], os.path.join(c.scratch, "so-extra-out"), timeout=900,
+                       env={"VERIF_ROUNDS": "20" if thorough else "5"})
+    extra = []
+    for rc, out, outp in res:
+        evs = [json.loads(l) for l in open(outp)] if os.path.exists(outp) else []
+        if rc != 0 and not (evs and proxy_panicked(outp + ".log")):
+            raise Broken("extra probes failed rc=%s: %s" % (rc, out[-1500:]))
+        extra += evs
+    if sum(1 for e in extra if e["ev"] == "Concurrent") < 10 or sum(1 for e in extra if e["ev"] == "ServePanic") < 4:
+        raise Broken("extra probes incomplete: %d events" % len(extra))
+    for e in extra:
+        e["id"] += 1000000
+    events += extra
     for t in ths:
         t.join()
     design_pred_leak = False
@@ -232,6 +248,13 @@ def run(c, a):
         viol_ids.add(pid)
         for b in bad:
             clause_count[b] = clause_count.get(b, 0) + 1
+        if "Open" not in p:
+            kind = "ServePanic" if "ServePanic" in p else "Concurrent"
+            e = p[kind]
+            c.violation({"module": "StreamObs", "cause": "serve-panic-bookkeeping" if kind == "ServePanic" else "concurrent-bookkeeping",
+                         "clauses": "+".join(bad)},
+                        "%s: %s" % ("/".join(bad), json.dumps(e)[:400]), {"kind": "streamobs-extra", "event": e})
+            continue
         o = p["Open"]
         if "crash" in fl:
             cause = "process-crash"
@@ -250,14 +273,20 @@ def run(c, a):
     variant = "pinned" if not not_cur else ("repaired" if not not_fixed else "neither")
     outcomes = {}
     for pid, p in by_id.items():
+        if "Open" not in p:
+            continue
         k = p.get("Result", {}).get("result", "crash")
         outcomes[k] = outcomes.get(k, 0) + 1
     distinct = set()
     for pid, p in by_id.items():
+        if "Open" not in p:
+            continue
         o = p["Open"]
         if o["numeric"] and o["val"] not in ("1", "+7", "007"):
             distinct.add((o["key"], o["val"], o["mode"]))
     c.coverage.update({
+        "serve_panic_probes": sum(1 for e in extra if e["ev"] == "ServePanic"),
+        "concurrent_rounds": sum(1 for e in extra if e["ev"] == "Concurrent"),
         "probes": nprobes, "probes_completed": len(complete), "probes_skipped_memory": len(skipped),
         "skipped": [dict(key=x["key"], val=x["val"], mode=x["mode"], why=x["skip"]) for x in skipped][:40],
         "growth_arithmetic_wraps": wraps, "outcomes": outcomes, "violating_clauses": clause_count,
